@@ -144,6 +144,10 @@ def programs(tier):
     for k, (g1, g2, g3) in enumerate(itertools.product(adj, repeat=3)):
         body = [(g1[0], g1[1], ())] + [(g2[0], g2[1], ())] + ([("h", (1,), ())] if k % 2 else layer(2)) + [(g3[0], g3[1], ())]
         progs.append((n, layer(0) + body + layer(1), (True,) if (tier == "quick" and k % 9) else (False, True)))
+    # the same entangling gate two and three times in a row, nothing in between (a pair is the identity for these self-inverse gates, three are the gate)
+    for g in two + three:
+        for reps in (2, 3):
+            progs.append((n, layer(0) + [(g[0], g[1], ())] * reps + layer(1)))
     if tier == "thorough":
         for g1, g2, g3 in itertools.islice(itertools.product(two, two + three, two), 0, None, 37):
             progs.append((n, layer(0) + [(g1[0], g1[1], ())] + layer(2) + [(g2[0], g2[1], ())] + [(g3[0], g3[1], ())] + layer(1)))
